@@ -256,6 +256,7 @@ Definition protect (mki_index : Z) : M Z :=
   (if s_use_mki st then wr_dst len (k_mki k) else ret tt) ;;;
   let do_auth := negb (Z.land (s_rtp_serv st) sec_serv_auth_c =? 0) in
   let tag_off := len + s_mki_size st in
+  (if do_auth then ret tt else wr_dst tag_off (zeros (zn tag_len))) ;;;
   (* index *)
   st <- get_stream r ;;
   let '(est_st, est, delta) := est_index st (hdr_seq pkt) in
